@@ -357,7 +357,9 @@ for cls, mod in (('Socket', 'socket'), ('AsyncSocket', 'async_socket')):
         ('events-only-grow', 'grows(events, old(events))'),
     ('spawned-only-grow', 'grows(spawned, old(spawned))'),
         ('queue-wf', 'self.queue.unf >= len(self.queue.items)')],
-        modifies=SOCK_MOD + ['ghost.received'], props=['C04'])
+        modifies=SOCK_MOD + ['ghost.received'], props=['C04', 'C18'], complete=True)
+    # (complete: every packet of the body is handed to receive - the loop has no early exit; a
+    # protocol error leaves through the exception receive raises)
 
 # ------------------------------------------------------------------------- _websocket_handler
 WS_MOD = SOCK_MOD + ['self.upgrading', 'self.upgraded', 'self.connected', 'ghost.ws_log',
